@@ -72,6 +72,33 @@ def patch_menu(spec):
     return out
 
 
+def _plain(p):
+    """Patch dictionaries as plain data (an object which appeared inside shows up as its type name)."""
+    if isinstance(p, dict):
+        return {k: _plain(v) for k, v in p.items()}
+    if p is None or isinstance(p, (int, str, float, bool)):
+        return p
+    return 'object:' + type(p).__name__
+
+
+def _instances(g):
+    """ids of the class instances (opt-in and plain) reachable in a loaded graph."""
+    seen, out, todo = set(), set(), [g]
+    while todo:
+        o = todo.pop()
+        if id(o) in seen or o is None or isinstance(o, (int, str, float, bool, bytes)):
+            continue
+        seen.add(id(o))
+        if isinstance(o, (list, tuple, set, frozenset)):
+            todo.extend(o)
+        elif isinstance(o, dict):
+            todo.extend(o.values())
+        elif hasattr(o, '__dict__'):
+            out.add(id(o))
+            todo.extend(o.__dict__.values())
+    return out
+
+
 def cause(spec):
     f = G.features(spec)
     for t in ('plain-top-with-optin-inside', 'optin-in-container-under-optin', 'siblings2+', 'backedge-to-optin'):
@@ -116,8 +143,9 @@ def _patch_chunk(specs):
                         delattr(RS._active_contexts, attr)
                 continue
             ref_apply(want, copy.deepcopy(patches))
+            mine = copy.deepcopy(patches)
             try:
-                got = rp.loads(data, extra_kwargs=copy.deepcopy(patches))
+                got = rp.loads(data, extra_kwargs=mine)
             except BaseException as e:  # noqa
                 sig = 'GRAPH/patched-load-raises/%s/%s' % (type(e).__name__, cause(spec))
                 sigs[sig] = sigs.get(sig, 0) + 1
@@ -132,6 +160,25 @@ def _patch_chunk(specs):
                 ctx.violation(sig, case, {'expected': a, 'loaded': b}, 'only the addressed objects differ from the unpatched load', engine='GRAPH')
             else:
                 ctx.outcome('patch:ok')
+                # the caller's dictionaries are inputs: the call must leave them as they were, so that using them again gives an
+                # equal graph which shares nothing with the first one
+                if _plain(mine) != _plain(patches):
+                    sig = 'GRAPH/callers-patch-dictionaries-modified/%s' % cause(spec)
+                    sigs[sig] = sigs.get(sig, 0) + 1
+                    ctx.violation(sig, case, {'passed': repr(patches)[:200], 'after_the_call': repr(mine)[:200]},
+                                  'loads does not modify the dictionaries it was given', engine='GRAPH')
+                else:
+                    try:
+                        got2 = rp.loads(data, extra_kwargs=mine)
+                        shared = _instances(got) & _instances(got2)
+                        if G.canon(got2) != b or shared:
+                            sig = 'GRAPH/second-load-with-the-same-patches-differs-or-shares-objects/%s' % cause(spec)
+                            sigs[sig] = sigs.get(sig, 0) + 1
+                            ctx.violation(sig, case, {'shared_objects': len(shared), 'equal': G.canon(got2) == b}, 'independent calls', engine='GRAPH')
+                    except BaseException as e:  # noqa
+                        sig = 'GRAPH/second-load-with-the-same-patches-raises/%s/%s' % (type(e).__name__, cause(spec))
+                        sigs[sig] = sigs.get(sig, 0) + 1
+                        ctx.violation(sig, case, repr(e)[:200], 'independent calls', engine='GRAPH')
             # independence: an unpatched load right after equals the same load on a fresh thread
             again = run_op(lambda: G.canon(rp.loads(data)))
             if again != fresh_plain:
